@@ -143,15 +143,20 @@ def site_in(e, top):
 
 
 def before_in(I, a, b, top=None):
-    """a happens before b on every path to b (dominance over normal edges), callees collapsed to their call sites"""
+    """effect a is executed before b on EVERY path reaching b: true dominance in the inlined graph (arm-restricted)"""
+    if a.gid == b.gid:
+        return a.idx <= b.idx
+    return I.g.dominates(I.dominators(), a.gid, b.gid)
+
+
+def before_in_collapsed(I, a, b, top=None):
+    """like before_in, but effects inside callees are attributed to their call sites (a helper with several internal branches
+    counts as one step of the caller)"""
     top = top or I.g.entry
     (ga, ia), (gb, ib) = site_in(a, top), site_in(b, top)
     if ga == gb:
         return ia <= ib
-    idom = getattr(I, "_idom", None)
-    if idom is None:
-        idom = I._idom = I.dominators()
-    return I.g.dominates(idom, ga, gb)
+    return I.g.dominates(I.dominators(), ga, gb)
 
 
 def every_path_to(I, gid, ok_at, depth=12):
